@@ -44,8 +44,9 @@ def model_view(rep, frame):
     return {'ok': o}
 
 
-def check_cells(frame, view, stats, what, order=None):
+def check_cells(frame, view, stats, what, order=None, fitted=False):
     """plain-Python oracle: every cell of `view` against the encoding of the abstract cell.
+    `fitted`: the category lists were fitted on another frame (converter calls), so they are not re-validated.
     Returns (key, message, expected, actual) or None."""
     n = frame['n']
     target = frame['target']
@@ -57,7 +58,7 @@ def check_cells(frame, view, stats, what, order=None):
     bycol = {c['name']: c for c in frame['cols']}
     for name, col in bycol.items():
         cats = stats.get(name, {}).get('cats', [])
-        if col['stype'] in ('categorical', 'multicategorical'):
+        if col['stype'] in ('categorical', 'multicategorical') and not fitted:
             p = mg.cats_problem(col, cats, name == target)
             if p:
                 return (f'stats/{col["stype"]}', f'{what}: column {name!r}: {p}', None, cats)
